@@ -342,7 +342,7 @@ impl Sender {
     }
 
     /// Close the pipe. If the returned future is dropped before polling, the
-    /// pipe won't be closed.
+    /// pipe is dropped like any other handle.
     ///
     /// See [`File::close`] for more details.
     pub fn close(self) -> impl Future<Output = io::Result<()>> {
@@ -475,7 +475,7 @@ impl Receiver {
     }
 
     /// Close the pipe. If the returned future is dropped before polling, the
-    /// pipe won't be closed.
+    /// pipe is dropped like any other handle.
     ///
     /// See [`File::close`] for more details.
     pub fn close(self) -> impl Future<Output = io::Result<()>> {
